@@ -178,6 +178,24 @@ def _make_cfg(prop, seed, tier='quick', idx=0):
         sift_tiny=bool(P.get('sift_tiny')), doc_cases=doc_cases,
         line_mode=bool(P.get('line_mode')) and r.random() < P['line_mode'].get(tier, 0.0),
     )
+    if prop == 'C09' and r.random() < 0.1:
+        # natural triggering at the default constants: no armed threshold,
+        # a bigger manager, everything kept
+        cfg['natural'] = True
+        cfg['dyn'] = True
+        cfg['knobs'] = dict(starts=100, factor=2, growth=2)
+        cfg['weights']['arm'] = 0
+        cfg['weights']['knobs'] = 0
+        cfg['weights']['drop'] = 1
+        cfg['weights']['gc'] = 0
+        cfg['nv'] = nv = max(nv, 9)
+        if len(cfg['names']) < nv:
+            pool = [x for x in gen.NAME_POOL if x not in cfg['names']]
+            cfg['names'] = cfg['names'] + r.sample(pool, nv - len(cfg['names']))
+        cfg['declared'] = nv
+        cfg['steps'] = 260
+        cfg['max_slots'] = 64
+        cfg['keep_rate'] = 1.0
     if P.get('real_disk') and r.random() < P['real_disk'].get(tier, 0.0):
         cfg['real_disk'] = True
         cfg['disk_faults'] = False
